@@ -185,4 +185,186 @@ example : pinTourB ⟨[0], "strict", [5, 6]⟩ 0 [1, 5, 9, 6] = false := by deci
 example : pinTourB ⟨[0], "sequence", [5, 6]⟩ 0 [1, 5, 9, 6] = true := by decide
 example : pinTourB ⟨[0], "any", [5, 6]⟩ 1 [6] = false := by decide
 
+/-! ## the removal tracker and the insertion heuristic's bookkeeping stay inside the machine
+
+Whatever the random choices of the real code were, the bookkeeping models are compositions of machine steps, so
+they inherit the invariants. The driver checks on elementary-step traces of the REAL functions (removal tracker through
+hook H3, `InsertionHeuristic::process` with an observing evaluator) that these models reproduce the real state after
+every call. -/
+
+theorem tryRemoveJob_inv (n : Nat) (fleet : List Actor) (sizes : List Nat) (t : Tracker) (c : Ctx) (r : Nat) (j : Job)
+    (h : Inv n fleet c) : Inv n fleet (tryRemoveJob sizes t c r j).2.1 := by
+  unfold tryRemoveJob
+  split
+  · exact h
+  · split
+    · rename_i c' hs
+      exact ⟨step_part _ c c' _ h.1 hs, step_reg fleet c c' _ h.2 hs⟩
+    · exact h
+
+theorem removeAll_inv (n : Nat) (fleet : List Actor) (r : Nat) : ∀ (js : List Job) (c c' : Ctx),
+    Inv n fleet c → removeAll c r js = some c' → Inv n fleet c' := by
+  intro js
+  induction js with
+  | nil => intro c c' h hs; simp only [removeAll, Option.some.injEq] at hs; subst hs; exact h
+  | cons j js ih =>
+    intro c c' h hs
+    simp only [removeAll] at hs
+    cases hst : step c (.remove j r) with
+    | none => simp [hst] at hs
+    | some c1 =>
+      simp only [hst, Option.bind_some] at hs
+      exact ih c1 c' ⟨step_part _ c c1 _ h.1 hst, step_reg fleet c c1 _ h.2 hst⟩ hs
+
+theorem tryRemoveRoute_inv (n : Nat) (fleet : List Actor) (sizes : List Nat) (t t' : Tracker) (c c' : Ctx) (r : Nat)
+    (whole : Bool) (removed : List Job) (ok : Bool)
+    (h : Inv n fleet c) (hs : tryRemoveRoute sizes t c r whole removed = some (t', c', ok)) : Inv n fleet c' := by
+  unfold tryRemoveRoute at hs
+  split at hs
+  · split at hs
+    · simp only [Option.some.injEq, Prod.mk.injEq] at hs; rw [← hs.2.1]; exact h
+    · simp at hs
+  · split at hs
+    · simp at hs
+    · rename_i rt hrt
+      simp only at hs
+      split at hs
+      · split at hs
+        · cases hd : step c (.dropRoute r) with
+          | none => simp [hd] at hs
+          | some c1 =>
+            simp only [hd, Option.map_some, Option.some.injEq, Prod.mk.injEq] at hs
+            rw [← hs.2.1]
+            exact ⟨step_part _ c c1 _ h.1 hd, step_reg fleet c c1 _ h.2 hd⟩
+        · simp at hs
+      · split at hs
+        · simp at hs
+        · split at hs
+          · cases hd : removeAll c r removed with
+            | none => simp [hd] at hs
+            | some c1 =>
+              simp only [hd, Option.map_some, Option.some.injEq, Prod.mk.injEq] at hs
+              rw [← hs.2.1]
+              exact removeAll_inv n fleet r removed c c1 h hd
+          · simp at hs
+
+theorem applyResult_inv (n : Nat) (fleet : List Actor) (c c' : Ctx) (e : EvalResult)
+    (h : Inv n fleet c) (hs : applyResult c e = some c') : Inv n fleet c' := by
+  cases e with
+  | success j a =>
+    simp only [applyResult] at hs
+    split at hs <;> exact ⟨step_part _ c c' _ h.1 hs, step_reg fleet c c' _ h.2 hs⟩
+  | failure =>
+    simp only [applyResult] at hs
+    exact ⟨step_part _ c c' _ h.1 hs, step_reg fleet c c' _ h.2 hs⟩
+
+theorem applyResults_inv (n : Nat) (fleet : List Actor) : ∀ (es : List EvalResult) (c c' : Ctx),
+    Inv n fleet c → applyResults c es = some c' → Inv n fleet c' := by
+  intro es
+  induction es with
+  | nil => intro c c' h hs; simp only [applyResults, Option.some.injEq] at hs; subst hs; exact h
+  | cons e es ih =>
+    intro c c' h hs
+    simp only [applyResults] at hs
+    cases hst : applyResult c e with
+    | none => simp [hst] at hs
+    | some c1 =>
+      simp only [hst, Option.bind_some] at hs
+      exact ih c1 c' (applyResult_inv n fleet c c1 e h hst) hs
+
+theorem ucnt_filter_split (a : Actor) (p : Route → Bool) : ∀ rs : List Route,
+    ucnt a (rs.filter p) + ucnt a (rs.filter (fun r => !p r)) = ucnt a rs := by
+  intro rs
+  induction rs with
+  | nil => simp [ucnt]
+  | cons x xs ih =>
+    unfold ucnt at *
+    by_cases hp : p x = true
+    · simp only [List.filter_cons, hp, if_true, Bool.not_true, List.map_cons, List.count_cons]
+      simp only [Bool.false_eq_true, if_false]
+      omega
+    · have hp' : p x = false := by simpa using hp
+      simp only [List.filter_cons, hp', Bool.not_false, if_true, List.map_cons, List.count_cons]
+      simp only [Bool.false_eq_true, if_false]
+      omega
+
+/-- `remove_empty_routes` keeps the registry consistent: the actors of dropped routes are offered again -/
+theorem dropEmpty_reg (fleet : List Actor) (c : Ctx) (h : RegPart fleet c) : RegPart fleet (dropEmpty c) := by
+  intro a
+  have hs := ucnt_filter_split a (fun r => !r.jobs.isEmpty) c.routes
+  have h0 := h a
+  unfold dropEmpty
+  simp only [List.count_append]
+  have e1 : ((c.routes.filter (fun r => r.jobs.isEmpty)).map (·.actor)).count a
+      = ucnt a (c.routes.filter (fun r => !(!r.jobs.isEmpty))) := by
+    unfold ucnt
+    congr 2
+    apply List.filter_congr
+    intro x _
+    simp
+  rw [e1]
+  omega
+
+theorem processWith_inv (n : Nat) (fleet : List Actor) (c c' : Ctx) (results : List EvalResult)
+    (h : Inv n fleet c) (hs : processWith c results = some c') : Inv n fleet c' := by
+  unfold processWith at hs
+  cases h1 : step c .prepare with
+  | none => simp [h1] at hs
+  | some c1 =>
+    simp only [h1, Option.bind_some] at hs
+    have i1 : Inv n fleet c1 := ⟨step_part _ c c1 _ h.1 h1, step_reg fleet c c1 _ h.2 h1⟩
+    cases h2 : applyResults c1 results with
+    | none => simp [h2] at hs
+    | some c2 =>
+      simp only [h2, Option.bind_some] at hs
+      have i2 := applyResults_inv n fleet results c1 c2 i1 h2
+      cases h3 : step c2 .finalize with
+      | none => simp [h3] at hs
+      | some c3 =>
+        simp only [h3, Option.map_some, Option.some.injEq] at hs
+        subst hs
+        exact ⟨dropEmpty_part _ c3 (step_part _ c2 c3 _ i2.1 h3), dropEmpty_reg fleet c3 (step_reg fleet c2 c3 _ i2.2 h3)⟩
+
+/-- **hand-over of the insertion heuristic**: nothing pending and no job-less route, whatever the evaluator answered -/
+theorem processWith_finalized (c c' : Ctx) (results : List EvalResult) (hs : processWith c results = some c') :
+    c'.required = [] ∧ ∀ r ∈ c'.routes, r.jobs ≠ [] := by
+  unfold processWith at hs
+  cases h1 : step c .prepare with
+  | none => simp [h1] at hs
+  | some c1 =>
+    simp only [h1, Option.bind_some] at hs
+    cases h2 : applyResults c1 results with
+    | none => simp [h2] at hs
+    | some c2 =>
+      simp only [h2, Option.bind_some] at hs
+      cases h3 : step c2 .finalize with
+      | none => simp [h3] at hs
+      | some c3 =>
+        simp only [h3, Option.map_some, Option.some.injEq] at hs
+        subst hs
+        refine ⟨?_, dropEmpty_no_empty_route c3⟩
+        have := finalize_no_required c2 c3 h3
+        simpa [dropEmpty] using this
+
+/-- a locked job is never taken out of its route by the tracker -/
+theorem tryRemoveJob_locked_refused (sizes : List Nat) (t : Tracker) (c : Ctx) (r : Nat) (j : Job) (hl : j ∈ c.locked) :
+    (tryRemoveJob sizes t c r j).2.2 = false := by
+  unfold tryRemoveJob
+  split
+  · rfl
+  · have : step c (.remove j r) = none := by
+      simp only [step]
+      split
+      · rename_i rt _
+        have : ¬ (j ∈ rt.jobs ∧ j ∉ c.locked) := fun hh => hh.2 hl
+        simp [this]
+      · rfl
+    simp [this]
+
+/-! non-vacuity -/
+example : (tryRemoveJob [1, 1, 1] ⟨2, 1⟩ { ex0 with routes := [⟨7, [1, 2]⟩], required := [3], available := [8] } 0 1).2.2 = true := by decide
+example : (tryRemoveJob [1, 1, 1] ⟨2, 1⟩ { ex0 with routes := [⟨7, [1, 2]⟩], required := [3], available := [8] } 0 2).2.2 = false := by decide
+example : (tryRemoveRoute [1, 1, 1] ⟨5, 1⟩ { ex0 with locked := [], routes := [⟨7, [1, 2]⟩], required := [3], available := [8] } 0 false [1]).isNone = true := by decide
+example : (processWith { ex0 with locked := [] } [.success 1 7, .success 2 7, .failure]).isSome = true := by decide
+
 end C04
